@@ -1,6 +1,6 @@
 """Statement-level translator, STDP-family trainers (DESIGN §12.5, properties C08 / C09): the WHOLE `forward` bodies of
 `STDP`, `TripletSTDP` (`inferno/learn/trainers/two_factor_stdp.py`) and `MSTDP`, `MSTDPET`
-(`inferno/learn/trainers/three_factor_stdp.py`), and the monitor wiring of `STDP.register_cell` / `MSTDP.register_cell`
+(`inferno/learn/trainers/three_factor_stdp.py`), and the monitor wiring of their `register_cell` / `_build_cell_state`
 → Lean programs over the world of `Gen/STDPPrelude.lean`, regenerated on every run as `Gen/STDPProg.lean` (core Lean only).
 
 What is kept from the source, statement by statement and in SOURCE ORDER: the loop over the trainer's units (`for cell,
@@ -18,10 +18,17 @@ A loop is emitted as two definitions: `<Class>_forward_cell` (the loop body for 
 body return the unit's cell) and `<Class>_forward` (`for_units self (<Class>_forward_cell …)`).  The only mutation the
 sub-language knows is `cell.updater.<p> = (pos, neg)` on the loop's own cell.
 
-`register_cell` is translated as DATA: the list of `MonitorSpec`s its `self.add_monitor(…)` calls describe (monitor name,
-monitored attribute, reducer class and its arguments — amplitude, time constant, duration —, the `monitor_kwargs`, the
-pooling flag, the tags), in source order.  The leading `add_cell(…)` statement and the trailing `return self.get_unit(name)`
-are required verbatim and not translated (C15 / C17).
+`register_cell` (all four classes) is translated as DATA: the list of `MonitorSpec`s its `self.add_monitor(…)` calls
+describe — monitor name, monitored attribute (`"synapse.spike" if delayed else "connection.synspike"`), monitor class and
+`subattrs`, the reducer (`state.tracecls(…)` / `PassthroughReducer(…)` / `EligibilityTraceReducer(…)`) with its step time,
+time constant, amplitude (`abs(state.lr_…)`, `abs(state.lr_x_triplet / state.lr_x_pair)`), target, duration
+(`delayedby if delayed else 0.0`, `2 * dt`, `delayedby + dt`: `None + float` raises `TypeError`), `inclusive`, `inplace`,
+which reshape is `obs_reshape` / `cond_reshape`, the `monitor_kwargs`, the `unique` flag and the tags — in source order,
+over `RegEnv` / `TRegEnv` (`cell.connection.dt`, `cell.connection.delayedby`, the fields of the state).  The leading
+`cell, state = self.add_cell(name, cell, self._build_cell_state(**kwargs), ["weight"])` and the trailing `return
+self.get_unit(name)` are required verbatim and not translated (C15 / C17).  Of `_build_cell_state` only the
+`match state.tracemode:` statement is translated (`<Class>_tracecls`: which reducer class each trace mode selects; a literal
+pattern `"_"` is a string, NOT a wildcard; `none` = no case matched, `state.tracecls` stays unset).
 
 Several classes of two files are translated, so this module has its own `regenerate()` (same return shape as
 `progtx.regenerate_class`).  Anything outside this sub-language raises `TranslateError` naming the node.
@@ -49,8 +56,14 @@ STATE_FIELDS = {
     "StateS α": {"lr_post": "scalar", "lr_pre": "scalar", "delayed": "bool", "tolerance": "scalar"},
     "TStateS α": {"lr_post_pair": "scalar", "lr_pre_pair": "scalar", "delayed": "bool", "tolerance": "scalar"},
 }
-# fields of the state `register_cell` reads (RegEnv)
-REG_STATE = {"lr_post": "scalar", "lr_pre": "scalar", "tc_post": "scalar", "tc_pre": "scalar", "delayed": "bool"}
+# fields of the state `register_cell` reads, per environment type
+REG_FIELDS = {
+    "RegEnv α": {"lr_post": "scalar", "lr_pre": "scalar", "tc_post": "scalar", "tc_pre": "scalar",
+                 "tc_eligibility": "scalar", "delayed": "bool", "tracemode": "str"},
+    "TRegEnv α": {"lr_post_pair": "scalar", "lr_post_triplet": "scalar", "lr_pre_pair": "scalar", "lr_pre_triplet": "scalar",
+                  "tc_post_fast": "scalar", "tc_post_slow": "scalar", "tc_pre_fast": "scalar", "tc_pre_slow": "scalar",
+                  "delayed": "bool", "tracemode": "str", "inplace": "bool"},
+}
 
 # functions, in emission order.  key = name of the generated definition
 METHODS = {
@@ -61,7 +74,15 @@ METHODS = {
                       "params": {"signal": "sig", "scale": "scalar", "cells": "optstrs"}},
     "MSTDPET_forward": {"src": THREE, "cls": "MSTDPET", "py": "forward", "kind": "forward", "state": "StateS α",
                         "params": {"signal": "sig", "scale": "scalar", "cells": "optstrs"}},
-    # REGISTER-PLACEHOLDER
+    "STDP_tracecls": {"src": TWO, "cls": "STDP", "py": "_build_cell_state", "kind": "tracecls"},
+    "STDP_register_cell": {"src": TWO, "cls": "STDP", "py": "register_cell", "kind": "register", "env": "RegEnv α"},
+    "TripletSTDP_tracecls": {"src": TWO, "cls": "TripletSTDP", "py": "_build_cell_state", "kind": "tracecls"},
+    "TripletSTDP_register_cell": {"src": TWO, "cls": "TripletSTDP", "py": "register_cell", "kind": "register",
+                                  "env": "TRegEnv α"},
+    "MSTDP_tracecls": {"src": THREE, "cls": "MSTDP", "py": "_build_cell_state", "kind": "tracecls"},
+    "MSTDP_register_cell": {"src": THREE, "cls": "MSTDP", "py": "register_cell", "kind": "register", "env": "RegEnv α"},
+    "MSTDPET_tracecls": {"src": THREE, "cls": "MSTDPET", "py": "_build_cell_state", "kind": "tracecls"},
+    "MSTDPET_register_cell": {"src": THREE, "cls": "MSTDPET", "py": "register_cell", "kind": "register", "env": "RegEnv α"},
 }
 
 EINSUM = {"b ... r, b ... r -> b ...": "einsum_brr_brr_b"}
@@ -70,12 +91,14 @@ HEADER = """import InfernoVerif.Gen.STDPPrelude
 /-! GENERATED by harness/progtx_stdp.py from inferno/learn/trainers/two_factor_stdp.py (classes `STDP`, `TripletSTDP`)
 and inferno/learn/trainers/three_factor_stdp.py (classes `MSTDP`, `MSTDPET`) — do not edit.
 Whole `forward` bodies as `Except Err` programs over ONE weight position (`<Class>_forward_cell`: the loop body for one
-unit; `<Class>_forward`: the loop), and the monitor wiring of `register_cell` as data.  Vocabulary: Gen/STDPPrelude.lean. -/
+unit; `<Class>_forward`: the loop), the monitor wiring of `register_cell` as data (`<Class>_register_cell`) and the
+`match state.tracemode:` of `_build_cell_state` (`<Class>_tracecls`).  Vocabulary: Gen/STDPPrelude.lean. -/
 set_option linter.unusedVariables false
 namespace InfernoVerif.Gen.STDPProg
 open InfernoVerif.Gen.STDPPrelude
 
 variable {ο σ α : Type} [Add α] [Mul α] [Neg α] [Max α] [Zero α] [One α] [LE α] [DecidableLE α] [LT α] [DecidableLT α]
+  [Div α] [OfNat α 2]
 """
 
 
@@ -124,23 +147,26 @@ class STDPTx(Tx):
             "conn": {"selector": "sel", "delayedby": "optscalar"},
             "regconn": {"dt": "scalar", "delayedby": "optscalar"},
             "regcell": {"connection": "regconn"},
-            "regstate": {**REG_STATE, "tracemode": "tracemode"},
         }
         if k == "state":
             fields = STATE_FIELDS[self.spec["state"]]
             if a in fields:
                 return f"{v}.{a}", fields[a]
+        elif k == "regstate":
+            fields = REG_FIELDS[self.spec["env"]]
+            if a in fields:
+                return f"R.{a}", fields[a]
         elif k in table and a in table[k]:
             if k == "regcell":
                 return v, "regconn"
-            if k == "regconn" or k == "regstate":
+            if k == "regconn":
                 return f"R.{a}", table[k][a]
             return f"{v}.{a}", table[k][a]
         self.err(n, f"unsupported attribute of kind {k}")
 
     def number(self, n):
-        """`0`, `0.0`, `1`, `1.0` as scalars"""
-        if isinstance(n, ast.Constant) and type(n.value) in (int, float) and n.value in (0, 1):
+        """`0`, `0.0`, `1`, `1.0`, `2` as scalars"""
+        if isinstance(n, ast.Constant) and type(n.value) in (int, float) and n.value in (0, 1, 2):
             return f"({int(n.value)} : α)"
         return None
 
@@ -596,6 +622,8 @@ class STDPTx(Tx):
     def emit(self) -> str:
         if self.spec["kind"] == "register":
             return self.emit_register()
+        if self.spec["kind"] == "tracecls":
+            return self.emit_tracecls()
         sig = self.sigs[self.name]
         if sig["order"] != list(self.spec["params"]) or sig["vararg"] or sig["kwarg"]:
             raise TranslateError(f"{self.SRC}::{self.CLS}.{self.spec['py']}", f"signature changed: {sig['order']}")
@@ -635,35 +663,72 @@ class STDPTx(Tx):
                     f"  pure (self, ())\n")
         return cell_def + f"\n/-- the loop of `{self.CLS}.{self.spec['py']}` over the trainer's units -/\n" + loop_def
 
-    # ------------------------------------------------------------------ register_cell as data
+    # ------------------------------------------------------------------ register_cell / _build_cell_state as data
+    def stripped(self):
+        return [s for s in self.fdef.body
+                if not (isinstance(s, ast.Expr) and isinstance(s.value, ast.Constant) and isinstance(s.value.value, str))]
+
+    def emit_tracecls(self) -> str:
+        """the `match state.tracemode:` statement of `_build_cell_state`"""
+        found = [s for s in ast.walk(self.fdef) if isinstance(s, ast.Match) and ast.unparse(s.subject) == "state.tracemode"]
+        if len(found) != 1 or found[0] not in self.fdef.body:
+            self.err(self.fdef, "not exactly one top-level `match state.tracemode:`")
+        out = f"def {self.name} (tracemode : String) : Except Err (Option String) :=\n  match tracemode with\n"
+        wild = False
+        for c in found[0].cases:
+            if wild:
+                self.err(c.pattern, "case after a wildcard")
+            p = c.pattern
+            if c.guard is not None:
+                self.err(p, "guarded case")
+            if isinstance(p, ast.MatchValue) and isinstance(p.value, ast.Constant) and isinstance(p.value.value, str):
+                pat = json.dumps(p.value.value)
+            elif isinstance(p, ast.MatchAs) and p.pattern is None and p.name is None:
+                pat, wild = "_", True
+            else:
+                self.err(p, "case pattern is not a string literal")
+            b = c.body
+            if len(b) == 1 and isinstance(b[0], ast.Assign) and len(b[0].targets) == 1 \
+                    and ast.unparse(b[0].targets[0]) == "state.tracecls" and isinstance(b[0].value, ast.Name):
+                out += f"  | {pat} => pure (some {json.dumps(b[0].value.id)})\n"
+            elif len(b) == 1 and isinstance(b[0], ast.Raise) and isinstance(b[0].exc, ast.Call) \
+                    and isinstance(b[0].exc.func, ast.Name) and b[0].exc.func.id in progtx.ERRS:
+                out += f"  | {pat} => throw Err.{b[0].exc.func.id}\n"
+            else:
+                self.err(b[0], "case body is neither `state.tracecls = <Class>` nor a raise")
+        if not wild:
+            out += "  | _ => pure none\n"
+        return out
+
     def emit_register(self) -> str:
         sig = self.sigs[self.name]
         if sig["order"] != ["name", "cell"] or sig["vararg"] or sig["kwarg"] != "kwargs":
             raise TranslateError(f"{self.SRC}::{self.CLS}.{self.spec['py']}", f"signature changed: {sig}")
-        body = [s for s in self.fdef.body
-                if not (isinstance(s, ast.Expr) and isinstance(s.value, ast.Constant) and isinstance(s.value.value, str))]
-        want0 = "(cell, state) = self.add_cell(name, cell, self._build_cell_state(**kwargs), ['weight'])"
+        body = self.stripped()
+        want0 = "cell, state = self.add_cell(name, cell, self._build_cell_state(**kwargs), ['weight'])"
         if len(body) < 3 or ast.unparse(body[0]) != want0:
             self.err(body[0] if body else self.fdef, "first statement is not the add_cell call")
         if ast.unparse(body[-1]) != "return self.get_unit(name)":
             self.err(body[-1], "last statement is not `return self.get_unit(name)`")
-        env = {"name": ("name", "str"), "cell": ("cell", "regcell"), "state": ("state", "regstate")}
-        out = ""
+        env = {"name": ("name", "cellname"), "cell": ("cell", "regcell"), "state": ("state", "regstate")}
+        out = "  let specs := ([] : List (MonitorSpec α))\n"
         mk = None
-        specs = []
+        count = 0
         for s in body[1:-1]:
             if isinstance(s, ast.Assign) and len(s.targets) == 1 and isinstance(s.targets[0], ast.Name):
                 nm = s.targets[0].id
-                if nm == "monitor_kwargs" and isinstance(s.value, ast.Dict):
+                if nm in env or nm in ("specs", "R"):
+                    self.err(s, f"rebinding of {nm}")
+                if isinstance(s.value, ast.Dict):
+                    if nm != "monitor_kwargs" or mk is not None:
+                        self.err(s, "unsupported dictionary")
                     mk = {}
                     for k, v in zip(s.value.keys, s.value.values):
                         if not (isinstance(k, ast.Constant) and isinstance(k.value, str) and isinstance(v, ast.Constant)
-                                and isinstance(v.value, bool)):
-                            self.err(s, "monitor_kwargs entry is not `str: bool`")
+                                and isinstance(v.value, bool)) or k.value in mk:
+                            self.err(s, "monitor_kwargs entry is not a distinct `str: bool`")
                         mk[k.value] = v.value
                     continue
-                if nm in env:
-                    self.err(s, f"rebinding of {nm}")
                 v, k = self.reg_ex(s.value, env)
                 if k not in ("bool", "scalar"):
                     self.err(s, f"local of kind {k}")
@@ -671,124 +736,178 @@ class STDPTx(Tx):
                 env[nm] = (lname(nm), k)
                 continue
             if isinstance(s, ast.Expr) and isinstance(s.value, ast.Call) and ast.unparse(s.value.func) == "self.add_monitor":
-                specs.append(self.monitor_spec(s.value, env, mk))
+                out += f"  let specs := specs ++ [{self.monitor_spec(s.value, env, mk)}]\n"
+                count += 1
                 continue
             self.err(s, "unsupported statement")
-        if not specs:
+        if not count:
             self.err(self.fdef, "no add_monitor call")
-        lst = ",\n".join(specs)
-        return (f"def {self.name} [Neg α] [Max α] [Zero α] (O : TorchOps ο α) (R : RegEnv α) : List (MonitorSpec α) :=\n"
-                .replace("[Neg α] [Max α] [Zero α] ", "") + out + f"  [\n{lst}\n  ]\n")
+        return (f"def {self.name} (R : {self.spec['env']}) : Except Err (List (MonitorSpec α)) := do\n" + out
+                + "  pure specs\n")
 
     def reg_ex(self, n, env):
-        """expressions of `register_cell`: scalars and booleans over `RegEnv`"""
-        if isinstance(n, ast.BoolOp) and isinstance(n.op, ast.And) and len(n.values) == 2:
-            a, ka = self.ex(n.values[0], env)
-            b, kb = self.ex(n.values[1], env)
-            if (ka, kb) == ("bool", "bool"):
-                return f"({a} && {b})", "bool"
+        """expressions of `register_cell`: scalars, booleans and strings over the environment `R`"""
+        if isinstance(n, ast.Constant) and isinstance(n.value, str):
+            return json.dumps(n.value), "str"
+        if isinstance(n, ast.BoolOp) and isinstance(n.op, ast.And):
+            parts = []
+            for x in n.values:
+                v, k = self.reg_ex(x, env)
+                if k != "bool":
+                    self.err(x, f"operand of kind {k}")
+                parts.append(self.pure(x, v))
+            return "(" + " && ".join(parts) + ")", "bool"
+        if isinstance(n, ast.Compare) and len(n.ops) == 1 and isinstance(n.ops[0], (ast.Is, ast.IsNot)) \
+                and const_none(n.comparators[0]):
+            v, k = self.reg_ex(n.left, env)
+            if k == "optscalar":
+                return (f"{v}.isNone" if isinstance(n.ops[0], ast.Is) else f"{v}.isSome"), "bool"
+            self.err(n, f"comparison with None on kind {k}")
         if isinstance(n, ast.IfExp):
             c, kc = self.reg_ex(n.test, env)
             a, ka = self.reg_ex(n.body, env)
             b, kb = self.reg_ex(n.orelse, env)
-            if kc == "bool" and ka == kb and ka in ("scalar", "str"):
-                return f"(if {c} then {a} else {b})", ka
-            if kc == "bool" and (ka, kb) == ("optscalar", "scalar"):
-                # a duration: `delayedby` is a float here (the test is `… and delayedby is not None`)
-                return f"(if {c} then {a} else some {b})", "optscalar"
-            self.err(n, f"conditional expression on kinds {kc}, {ka}, {kb}")
+            if kc != "bool":
+                self.err(n.test, f"condition of kind {kc}")
+            opt = lambda v, k: f"(some {v})" if k == "scalar" else v   # noqa: E731
+            if ka == kb and ka in ("scalar", "str"):
+                k = ka
+            elif {ka, kb} <= {"scalar", "optscalar"}:
+                a, b, k = opt(a, ka), opt(b, kb), "optscalar"      # the Python value passed on may be None
+            else:
+                self.err(n, f"conditional expression on kinds {ka}, {kb}")
+            if "←" in a or "←" in b:
+                return f"(← (if {self.pure(n.test, c)} then (do pure {a}) else (do pure {b})))", k
+            return f"(if {c} then {a} else {b})", k
         if isinstance(n, ast.Call) and ast.unparse(n.func) == "abs" and len(n.args) == 1 and not n.keywords:
             x, kx = self.reg_ex(n.args[0], env)
             if kx == "scalar":
                 return f"(absv {x})", "scalar"
-        if isinstance(n, ast.Constant) and type(n.value) is float and n.value == 0.0:
-            return "(0 : α)", "scalar"
-        return self.ex(n, env)
+            self.err(n, f"abs of kind {kx}")
+        if isinstance(n, ast.BinOp):
+            a, ka = self.reg_ex(n.left, env)
+            b, kb = self.reg_ex(n.right, env)
+            if (ka, kb) == ("scalar", "scalar") and isinstance(n.op, (ast.Div, ast.Mult, ast.Add)):
+                return f"({a} {'/' if isinstance(n.op, ast.Div) else '*' if isinstance(n.op, ast.Mult) else '+'} {b})", "scalar"
+            if (ka, kb) == ("optscalar", "scalar") and isinstance(n.op, ast.Add):
+                return f"(← opt_add {a} {b})", "scalar"
+            self.err(n, f"unsupported arithmetic on kinds {ka}, {kb}")
+        if isinstance(n, (ast.Constant, ast.Name, ast.Attribute)):
+            v, k = self.ex(n, env)
+            if k in ("bool", "scalar", "optscalar", "str"):
+                return v, k
+            self.err(n, f"value of kind {k}")
+        self.err(n, "unsupported expression")
+
+    def boolean(self, n) -> str:
+        if isinstance(n, ast.Constant) and isinstance(n.value, bool):
+            return "true" if n.value else "false"
+        self.err(n, "not a boolean literal")
+
+    def duration(self, n, env) -> str:
+        """the Python value passed as `duration=` (an `Option α`: `none` is `None`)"""
+        v, k = self.reg_ex(n, env)
+        if k == "scalar":
+            return f"(some {v})"
+        if k == "optscalar":
+            return v
+        self.err(n, f"duration of kind {k}")
+
+    def inplace(self, kw, env) -> str:
+        if "inplace" not in kw:
+            return "none"
+        v, k = self.reg_ex(kw["inplace"], env)
+        if k != "bool":
+            self.err(kw["inplace"], f"inplace of kind {k}")
+        return f"(some {v})"
+
+    def reducer_spec(self, n, env) -> str:
+        if not isinstance(n, ast.Call) or any(k.arg is None for k in n.keywords):
+            self.err(n, "reducer")
+        kw = {k.arg: k.value for k in n.keywords}
+        f = ast.unparse(n.func)
+        scalars = []
+        for x in n.args:
+            v, k = self.reg_ex(x, env)
+            if k != "scalar":
+                self.err(x, f"reducer argument of kind {k}")
+            scalars.append(v)
+        if f == "state.tracecls" and len(scalars) == 2 and \
+                set(kw) in ({"amplitude", "target", "duration", "inclusive"}, {"amplitude", "target", "duration", "inclusive", "inplace"}):
+            amp, kamp = self.reg_ex(kw["amplitude"], env)
+            if kamp != "scalar":
+                self.err(kw["amplitude"], f"amplitude of kind {kamp}")
+            return (f".trace R.tracecls {scalars[0]} {scalars[1]} {amp} {self.boolean(kw['target'])} "
+                    f"{self.duration(kw['duration'], env)} {self.boolean(kw['inclusive'])} {self.inplace(kw, env)}")
+        if f == "PassthroughReducer" and len(scalars) == 1 and \
+                set(kw) in ({"duration", "inclusive"}, {"duration", "inclusive", "inplace"}):
+            return (f".passthrough {scalars[0]} {self.duration(kw['duration'], env)} {self.boolean(kw['inclusive'])} "
+                    f"{self.inplace(kw, env)}")
+        if f == "EligibilityTraceReducer" and len(scalars) == 2 and \
+                set(kw) == {"obs_reshape", "cond_reshape", "duration", "inclusive"}:
+            resh = []
+            for key in ("obs_reshape", "cond_reshape"):
+                x = kw[key]
+                if not (isinstance(x, ast.Call) and ast.unparse(x.func) == "weakref.WeakMethod" and len(x.args) == 1
+                        and not x.keywords and isinstance(x.args[0], ast.Attribute)
+                        and ast.unparse(x.args[0].value) == "cell.connection"
+                        and x.args[0].attr in ("presyn_receptive", "postsyn_receptive")):
+                    self.err(x, "reshape is not a weak reference to a receptive reshape of the cell's connection")
+                resh.append(json.dumps(x.args[0].attr))
+            return (f".eligibility {scalars[0]} {scalars[1]} {resh[0]} {resh[1]} {self.duration(kw['duration'], env)} "
+                    f"{self.boolean(kw['inclusive'])}")
+        self.err(n, "unsupported reducer")
 
     def monitor_spec(self, c: ast.Call, env, mk) -> str:
-        kw = {k.arg: k.value for k in c.keywords}
-        if None in kw or len(c.args) != 5:
+        if any(k.arg is None for k in c.keywords) or len(c.args) != 5 or any(isinstance(a, ast.Starred) for a in c.args):
             self.err(c, "add_monitor arguments")
-        cellname, mon, attr, ctor, unpooled = c.args
-        if ast.unparse(cellname) != "name":
+        cellname, mon, attr, ctor, unique = c.args
+        if not (isinstance(cellname, ast.Name) and env.get(cellname.id, ("", ""))[1] == "cellname"):
             self.err(c, "monitor added to another cell")
         if not (isinstance(mon, ast.Constant) and isinstance(mon.value, str)):
             self.err(mon, "monitor name is not a string literal")
         a, ka = self.reg_ex(attr, env)
         if ka != "str":
             self.err(attr, f"monitored attribute of kind {ka}")
-        if not (isinstance(unpooled, ast.Constant) and isinstance(unpooled.value, bool)):
-            self.err(unpooled, "pooling flag is not a boolean literal")
-        # StateMonitor.partialconstructor(reducer=…, **monitor_kwargs [, prepend=…])
-        if not (isinstance(ctor, ast.Call) and ast.unparse(ctor.func) == "StateMonitor.partialconstructor" and not ctor.args):
+        if not (isinstance(ctor, ast.Call) and not ctor.args
+                and ast.unparse(ctor.func) in ("StateMonitor.partialconstructor", "MultiStateMonitor.partialconstructor")):
             self.err(ctor, "monitor constructor")
-        flags = {}
-        red = None
+        multi = ast.unparse(ctor.func).startswith("Multi")
+        flags, red, subattrs = {}, None, []
         for k in ctor.keywords:
             if k.arg is None:
-                if ast.unparse(k.value) != "monitor_kwargs" or mk is None:
+                if not (isinstance(k.value, ast.Name) and k.value.id == "monitor_kwargs") or mk is None:
                     self.err(ctor, "unsupported ** argument")
-                flags.update(mk)
+                new = mk
             elif k.arg == "reducer":
                 red = k.value
-            elif isinstance(k.value, ast.Constant) and isinstance(k.value.value, bool):
-                flags[k.arg] = k.value.value
+                continue
+            elif k.arg == "subattrs" and multi and isinstance(k.value, ast.Tuple) and all(
+                    isinstance(e, ast.Constant) and isinstance(e.value, str) for e in k.value.elts):
+                subattrs = [json.dumps(e.value) for e in k.value.elts]
+                continue
             else:
-                self.err(ctor, f"constructor argument {k.arg}")
-        if red is None or set(flags) != {"as_prehook", "train_update", "eval_update", "prepend"}:
-            self.err(ctor, f"constructor flags {sorted(flags)}")
-        rtxt = self.reducer_spec(red, env)
-        tags, tag_delayed, tag_trace = [], "none", "false"
-        for k, v in kw.items():
-            if k == "delayed":
-                dv, dk = self.reg_ex(v, env)
-                if dk != "bool":
-                    self.err(v, f"delayed tag of kind {dk}")
-                tag_delayed = f"some {dv}"
-            elif k == "trace":
-                if ast.unparse(v) != "state.tracemode":
-                    self.err(v, "trace tag")
-                tag_trace = "true"
-            else:
-                tv, tk = self.reg_ex(v, env)
-                if tk != "scalar":
-                    self.err(v, f"tag {k} of kind {tk}")
-                tags.append(f"({json.dumps(k)}, {tv})")
+                new = {k.arg: self.boolean(k.value) == "true"}
+            for f, v in new.items():
+                if f in flags:
+                    self.err(ctor, f"constructor argument {f} given twice")
+                flags[f] = v
+        if red is None or set(flags) != {"as_prehook", "train_update", "eval_update", "prepend"} or multi != bool(subattrs):
+            self.err(ctor, f"constructor arguments {sorted(flags)}")
+        tags = []
+        for k in c.keywords:
+            tv, tk = self.reg_ex(k.value, env)
+            con = {"scalar": "num", "bool": "flag", "str": "str"}.get(tk)
+            if con is None:
+                self.err(k.value, f"tag {k.arg} of kind {tk}")
+            tags.append(f"({json.dumps(k.arg)}, .{con} {tv})")
         b = lambda x: "true" if x else "false"   # noqa: E731
-        return (f"    {{ name := {json.dumps(mon.value)}, attr := {a},\n"
-                f"      reducer := {rtxt},\n"
+        return (f"{{\n      name := {json.dumps(mon.value)}, attr := {a}, multi := {b(multi)}, subattrs := [{', '.join(subattrs)}],\n"
+                f"      reducer := {self.reducer_spec(red, env)},\n"
                 f"      as_prehook := {b(flags['as_prehook'])}, train_update := {b(flags['train_update'])}, "
                 f"eval_update := {b(flags['eval_update'])}, prepend := {b(flags['prepend'])}, "
-                f"unpooled := {b(unpooled.value)},\n"
-                f"      tags := [{', '.join(tags)}], tag_delayed := {tag_delayed}, tag_trace := {tag_trace} }}")
-
-    def duration(self, n, env) -> str:
-        """a reducer duration: a float, or `delayedby if delayed else <float>` (`delayedby` is then not None:
-        `RegEnv.delayedby` is read through `Option.getD … 0` ONLY under `delayed`, which implies `isSome`)"""
-        v, k = self.reg_ex(n, env)
-        if k == "scalar":
-            return v
-        self.err(n, f"duration of kind {k}")
-
-    def reducer_spec(self, n, env) -> str:
-        if not isinstance(n, ast.Call):
-            self.err(n, "reducer")
-        kw = {k.arg: k.value for k in n.keywords}
-        f = ast.unparse(n.func)
-        boolean = lambda x: isinstance(x, ast.Constant) and isinstance(x.value, bool)   # noqa: E731
-        if f == "state.tracecls" and len(n.args) == 2 and set(kw) == {"amplitude", "target", "duration", "inclusive"} \
-                and boolean(kw["target"]) and boolean(kw["inclusive"]):
-            dt, kd = self.reg_ex(n.args[0], env)
-            tc, kt = self.reg_ex(n.args[1], env)
-            amp, kamp = self.reg_ex(kw["amplitude"], env)
-            if (kd, kt, kamp) == ("scalar", "scalar", "scalar"):
-                return (f".trace {dt} {tc} {amp} {'true' if kw['target'].value else 'false'} "
-                        f"{self.duration(kw['duration'], env)} {'true' if kw['inclusive'].value else 'false'}")
-        if f == "PassthroughReducer" and len(n.args) == 1 and set(kw) == {"duration", "inclusive"} and boolean(kw["inclusive"]):
-            dt, kd = self.reg_ex(n.args[0], env)
-            if kd == "scalar":
-                return f".passthrough {dt} {self.duration(kw['duration'], env)} {'true' if kw['inclusive'].value else 'false'}"
-        self.err(n, "unsupported reducer")
+                f"unique := {self.boolean(unique)},\n"
+                f"      tags := [{', '.join(tags)}] }}")
 
 
 def const_none(n) -> bool:
@@ -829,7 +948,8 @@ def regenerate() -> dict:
     for k, s in T.METHODS.items():
         seg = ast.get_source_segment(trees[s["src"]][0], fdefs[k]) or ""
         sha = hashlib.sha256(seg.encode()).hexdigest()[:16]
-        what = "the loop body for one unit" if s["kind"] == "forward" else "the `add_monitor` calls as data"
+        what = {"forward": "the loop body for one unit", "register": "the `add_monitor` calls as data",
+                "tracecls": "the `match state.tracemode:` statement"}[s["kind"]]
         text += (f"\n/-- from `{s['src']}` :: `{s['cls']}.{s['py']}` (sha256 of source segment {sha}): {what} -/\n"
                  + T(k, fdefs[k], sigs).emit())
         info[k] = sha
